@@ -56,27 +56,20 @@ Section Safety.
   Notation scan := (scan is_tail).
   Notation ptail p := (is_tail (p_marker p) (p_payload p)).
 
-  (* what the property asks of one sample, relative to a buffer content B:
-     a run of consecutive keys holding the packets, the first a partition
-     head, the bytes their depacketized payloads in order, the timestamp the
-     head's; all packets but the last share it and are not partition tails,
-     and the last shares it unless it is a partition tail (the code tests the
-     tail flag before the timestamp: c31_one_timestamp_refuted) *)
-  Definition sample_ok (B : list (N * packet)) (x : sample) : Prop :=
+  (* the run part of the property for one sample, relative to a buffer content B *)
+  Definition run_ok (B : list (N * packet)) (x : sample) : Prop :=
     exists h hp rest ds,
       h < 65536 /\
       s_pkts x = hp :: rest /\
       Forall2 (fun k p => In (k, p) B) (keys_from h (List.length (hp :: rest))) (hp :: rest) /\
       is_head (p_payload hp) = true /\
       map (fun p => unmarshal (p_payload p)) (hp :: rest) = map Some ds /\
-      s_data x = concat ds /\
-      s_ts x = p_ts hp /\
-      (forall p, In p (removelast (hp :: rest)) -> p_ts p = p_ts hp /\ ptail p = false) /\
-      (ptail (last rest hp) = false -> p_ts (last rest hp) = p_ts hp).
+      s_data x = concat ds.
+  Notation ts_ok := (sample_ts is_tail).
 
-  Lemma sample_ok_incl : forall B B' x, incl B B' -> sample_ok B x -> sample_ok B' x.
+  Lemma run_ok_incl : forall B B' x, incl B B' -> run_ok B x -> run_ok B' x.
   Proof.
-    intros B B' x Hi (h & hp & rest & ds & Hh & H1 & H2 & H3 & H4 & H5 & H6 & H7 & H8).
+    intros B B' x Hi (h & hp & rest & ds & Hh & H1 & H2 & H3 & H4 & H5).
     exists h, hp, rest, ds. repeat (split; [assumption|]). split; [|tauto].
     eapply Forall2_mono; [|exact H2]. intros k p Hin. apply Hi. exact Hin.
   Qed.
@@ -92,8 +85,9 @@ Section Safety.
     r_ok : locs_ok s -> locs_ok s';
     r_fault : fault s' = 0 -> fault s = 0;
     r_buf : incl (buf s') (buf s);
-    r_built : fault s' = 0 -> locs_ok s ->
-              forall x, In x (built s') -> In x (built s) \/ sample_ok (buf s) x;
+    r_built : locs_ok s ->
+              forall x, In x (built s') ->
+              In x (built s) \/ (run_ok (buf s) x /\ (fault s' = 0 -> ts_ok x));
     r_built_mono : incl (built s) (built s');
     r_prep : forall e, In e (prep s') -> In e (prep s) \/ In (snd e) (built s');
     r_pool_nodup : NoDup (pool s) -> NoDup (pool s');
@@ -112,8 +106,9 @@ Section Safety.
     - auto.
     - auto.
     - eapply incl_tran; eassumption.
-    - intros Hf Hok x Hx. destruct (d2 Hf (b0 Hok) x Hx) as [H|H]; [apply b2; auto|].
-      right. eapply sample_ok_incl; eassumption.
+    - intros Hok x Hx. destruct (d2 (b0 Hok) x Hx) as [H|[H H']].
+      + destruct (b2 Hok x H) as [G|[G G']]; [left; exact G|right]. split; [exact G|]. intro Hf. apply G'. apply df. exact Hf.
+      + right. split; [eapply run_ok_incl; eassumption|exact H'].
     - eapply incl_tran; eassumption.
     - intros e He. destruct (d4 e He) as [H|H]; [|right; assumption].
       destruct (b4 e H) as [H'|H']; [left; assumption|right; apply d3; assumption].
